@@ -83,6 +83,17 @@ pub fn run(args: &[String]) {
                     cache.set(Key::new(n, i as u64, 7 * i as u64), &v).unwrap();
                 }
             }
+            if scenario.contains("staletemp") {
+                // debris of a crashed writer: two temporary files older than the age limit, which this write's maintenance sweeps
+                let tdir = wdir.join(".kismet_temp");
+                std::fs::create_dir_all(&tdir).unwrap();
+                for n in ["stale0", "stale1"] {
+                    let p = tdir.join(n);
+                    std::fs::File::create(&p).unwrap().write_all(VALUE).unwrap();
+                    let t = filetime::FileTime::from_unix_time(filetime::FileTime::now().unix_seconds() - 3 * 3600, 0);
+                    filetime::set_file_times(&p, t, t).unwrap();
+                }
+            }
             let src = stage(&stage_dir, "src");
             mark("begin");
             let r: std::io::Result<()> = match op.as_str() {
